@@ -1,3 +1,5 @@
+//go:build verif
+
 package checks
 
 // C15 — RLPx piece: the genuine frame reader/writer and the genuine encryption handshake
